@@ -45,7 +45,8 @@ static std::string cfg_str(const Cfg &c)
     if (c.warm) s += " warm-up=" + hx(c.warm);
     if ((c.lay & 7) >= 2) s += " layout=one-arena/order" + std::to_string((c.lay & 7) - 2);
     if (((c.lay >> 3) & 3) == 1) s += " called-inside-a-parallel-region";
-    { static const char *SM[] = {"", "", "", "", "smaller-alive", "larger-alive", "smaller-destroyed", "smaller-used"}; if (((c.lay >> 5) & 7) >= 4) s += std::string(" other-instance-first=") + SM[(c.lay >> 5) & 7]; }
+    if (((c.lay >> 24) & 3) == 1) s += " app-omp_set_num_threads(" + std::to_string(1 + (c.lay >> 26) % 7) + ")";
+    { static const char *SM[] = {"", "", "", "", "smaller-alive", "larger-alive", "smaller-destroyed", "smaller-used"}; if (((c.lay >> 5) & 7) == 2) s += " same-domain-instance-built-first,destroyed-before-the-call"; if (((c.lay >> 5) & 7) == 3) s += " same-domain-instance-built-and-destroyed-in-between"; if (((c.lay >> 5) & 7) >= 4) s += std::string(" other-instance-first=") + SM[(c.lay >> 5) & 7]; }
     return s;
 }
 static std::string desc(const Case &c) { return c.prop + " " + cfg_str(cfg_of(c.v)); }
@@ -154,10 +155,14 @@ static CallResult run_call(NTT_Goldilocks &g, const Cfg &c, bool check_oracle)
     case K_RT_IF: g.INTT(dstarg, src, n, ncols, buf, c.nphase, c.nblock); g.NTT(out, out, n, ncols, buf, c.nphase2, c.nblock2); break;
     }
     };
+    // lay bits 24-25 == 1: the application has called omp_set_num_threads(k) (k from bits 26-28) after constructing the object
+    const bool appthreads = ((c.lay >> 24) & 3) == 1; const int saved_threads = omp_get_max_threads();
+    if (appthreads) omp_set_num_threads(1 + (int)((c.lay >> 26) % 7));
     if (nested) {
 #pragma omp parallel num_threads(2)
         { if (omp_get_thread_num() == 0) docall(); }
     } else docall();
+    if (appthreads) omp_set_num_threads(saved_threads);
     R.raw.resize(rows_out * ncols);
     for (uint64_t i = 0; i < rows_out * ncols; i++) R.raw[i] = out[i].fe;
     if (check_oracle) {
@@ -206,6 +211,7 @@ static void classify(const Cfg &c, Ctx &ctx)
     }
     if ((c.lay & 7) >= 2) { ctx.cls("cfg:buffers-adjacent-in-one-arena"); nt = true; }
     if (((c.lay >> 3) & 3) == 1) { ctx.cls("cfg:called-inside-a-parallel-region"); nt = true; }
+    if (((c.lay >> 24) & 3) == 1) { ctx.cls("cfg:application-called-omp_set_num_threads-before"); nt = true; }
     if (c.dmode == 1) ctx.cls("data:basis"); else if (c.dmode >= 6) ctx.cls("data:special-columns-next-to-generic-columns"); else if (c.dmode >= 2) ctx.cls("data:special(zero/constant/spectral-line/all-p-1)"); else ctx.cls("data:mixed-representations");
     if (c.ln != SIZE0 && c.ln > 6) ctx.cls("size:n>64(fft-oracle)"); else ctx.cls("size:n<=64(naive-dft-oracle)");
     if (c.ln != SIZE0 && c.ln >= 16) ctx.cls("size:n>=2^16");
@@ -228,7 +234,11 @@ static bool body_call(const Case &cs, Ctx &ctx)
           if (sm == 6) sib.reset();
           ctx.nt(sm == 5 ? "cfg:a-larger-instance-was-constructed-first" : "cfg:a-smaller-instance-was-constructed-first");
       } }
+    // non-nested lifetimes of two objects of the SAME domain: A built, the object under test built, A destroyed -- or A built and destroyed in between
+    { const int sm = (int)((c.lay >> 5) & 7); if (sm == 2) { sib.reset(new NTT_Goldilocks(1ull << c.lm, c.nth)); ctx.nt("cfg:a-same-domain-instance-built-first-and-destroyed-before-the-call"); } }
     NTT_Goldilocks g(1ull << c.lm, c.nth);
+    { const int sm = (int)((c.lay >> 5) & 7); if (sm == 2) sib.reset();
+      if (sm == 3) { std::unique_ptr<NTT_Goldilocks> t(new NTT_Goldilocks(1ull << c.lm, c.nth)); t.reset(); ctx.nt("cfg:a-same-domain-instance-built-and-destroyed-after-construction"); } }
     if (c.warm) {
         // the object has been used before: one earlier call of another kind / size on the same object (its result is not checked here;
         // the property under test is about the call that follows)
@@ -257,6 +267,10 @@ static bool body_history(const Case &cs, Ctx &ctx)
     for (uint64_t i = 0; i < ncmd; i++) {
         Cfg c = cfg_of(cs.v, 3 + 12 * i);
         c.lm = lm; c.nth = nth;
+        // (a history command has 12 words: the optional words of a single-call payload are derived from its data seed) buffer layout and calling
+        // context (inside a parallel region / after omp_set_num_threads by the application) vary per command
+        c.nphase2 = c.nphase; c.nblock2 = c.nblock; c.warm = 0; c.lay = ((c.dseed >> 30) & 0x1F) | (((c.dseed >> 36) & 0x1F) << 24);
+        if (((c.lay >> 3) & 3) == 1) ctx.cls("hist:a-call-made-inside-a-parallel-region");
         if (c.kind == 5) { // a foreign object's transform in between (changes the global OpenMP team size)
             NTT_Goldilocks other(8, (uint32_t)(1 + c.nphase % 7));
             E tmp[8]; for (int k = 0; k < 8; k++) tmp[k].fe = k + 1;
@@ -317,7 +331,7 @@ static rc::Gen<std::vector<uint64_t>> gen_call(int kindsel /* -1 any of 0..4, el
         int buf = *g::irange(0, 1);
         int nth = *rc::gen::weightedOneOf<int>({{2, rc::gen::just(0)}, {4, rc::gen::elementOf(std::vector<int>(THREADS, THREADS + 5))}, {1, g::irange(1, 64)}});
         uint64_t dmode = *rc::gen::weightedElement<uint64_t>({{12, 0}, {4, 1}, {1, 2}, {1, 3}, {1, 4}, {1, 5}, {2, 6}, {1, 7}});
-        uint64_t lay = (uint64_t)*g::irange(0, 7) | ((uint64_t)*g::irange(0, 3) << 3) | ((uint64_t)*g::irange(0, 7) << 5) | ((uint64_t)*g::irange(0, 0xFFFF) << 8);
+        uint64_t lay = (uint64_t)*g::irange(0, 7) | ((uint64_t)*g::irange(0, 3) << 3) | ((uint64_t)*g::irange(0, 7) << 5) | ((uint64_t)*g::irange(0, 0xFFFF) << 8) | ((uint64_t)*g::irange(0, 31) << 24);
         uint64_t dseed = *g::uni64();
         uint64_t nphase2 = *rc::gen::elementOf(std::vector<uint64_t>(PHASES, PHASES + 12));
         uint64_t nblock2 = *rc::gen::elementOf(std::vector<uint64_t>(BLOCKS, BLOCKS + 9));
@@ -378,7 +392,7 @@ static std::vector<std::vector<uint64_t>> &enum_space(int kind)
                                         uint64_t seed = pbt::mix(ctr, lm * 1000 + ln * 10 + kind);
                                         uint64_t dmode = (ctr % 4 == 3) ? 1 : 0;
                                         sp.push_back({(uint64_t)kind, (uint64_t)lm, (uint64_t)lnn, (uint64_t)(ln < 0 ? 0 : ln + de), ncols, nphase, nblock, (uint64_t)dst, (uint64_t)buf, (uint64_t)nth, dmode, seed, PHASES[(ctr * 7) % 12], blocks[(ctr * 3) % blocks.size()],
-                                                      (ctr % 5 == 4) ? 1 + (seed & 0xFFFF) : 0, (seed >> 24) & 0xFFFFFF});
+                                                      (ctr % 5 == 4) ? 1 + (seed & 0xFFFF) : 0, (seed >> 24) & 0x1FFFFFFF});
                                         ctr++;
                                     }
                                 }
@@ -437,6 +451,7 @@ int main(int argc, char **argv)
     props.push_back({"c04.roundtrip", [big] { return rc::gen::exec([big] { auto v = *gen_call(K_RT_FI, big, 8); v[0] = (uint64_t)*g::irange(3, 4); return v; }); }, body_call, 1, true, desc, 100});
     props.push_back({"c05.random", [big] { return gen_call(K_EXT, big - 2, 8); }, body_call, 1, true, desc, 100});
     props.push_back({"c19.history", [] { return gen_history(); }, body_history, 1, true, desc_history, 100});
+    for (auto &p : props) if (p.name == "c03.random" || p.name == "c04.random" || p.name == "c05.random") p.mt_ok = true;
     return pbt::harness_main(argc, argv, "h_ntt", props);
 }
 #endif // PBT_NO_MAIN
